@@ -56,9 +56,11 @@ FLOORS = {
               "reach:txtorcon.torstate:TorState._create_router": 9000,
               "reach:txtorcon.torstate:TorState._update_network_status": 400,
               "reach:txtorcon.torstate:TorState.router_from_id": 30000},
-    "thorough": {"evaluations": 10000, "documents_compared": 25000, "relays_compared": 400000,
-                 "lookups_compared": 1000000, "reused_relays_seen": 100000, "codec_roundtrips": 50000,
-                 "reach:txtorcon.torstate:TorState._create_router": 400000},
+    "thorough": {"evaluations": 50000, "documents_compared": 40000, "relays_compared": 500000,
+                 "lookups_compared": 1500000, "reused_relays_seen": 250000, "object_identity_checks": 250000,
+                 "collections_compared": 80000, "codec_roundtrips": 100000,
+                 "reach:txtorcon.torstate:TorState._create_router": 500000,
+                 "reach:txtorcon.torstate:TorState._update_network_status": 25000},
 }
 
 NICKS = ["Unnamed", "Unnamed", "default", "relay", "Foo", "bar", "tor4", "x", "OK", "ns", "r2d2",
